@@ -1,2 +1,114 @@
-(* placeholder while the proofs are in progress *)
+(* C10 - Merkle nodes never report a stale hash, whatever the mutation history.
+   Property theorems only: each is closed by `exact` of a lemma proved in
+   proofs/Merkle*.v, with Print Assumptions beneath it.
+
+   Vocabulary (model/Merkle.v): a heap of nodes addressed by handles; [step] runs
+   one operation of {new node, set/replace, delete, bulk update, get, contains
+   (all with Directory path keys), read hash, forced update, entries, to_model,
+   collect, reset}; [Fresh NH s n h] = "h is the hash of n computed from
+   scratch from the current structure of s"; NH is the user's node hash
+   function (any function with truthy results); [guard] = the structure stays
+   a DAG and a bulk update receives a dict of plain names and existing nodes;
+   [guarded [] h] = every step of history h from the empty heap is guarded.
+   The boolean argument of step/guard is the way a parent link is removed:
+   true = by identity (the code as it is), false = with == (the previous code). *)
+From Coq Require Import List NArith.
+From SWH.lib Require Import Bytes.
 From SWH.model Require Import Merkle.
+From SWH.proofs Require Import MerkleBase MerkleInv MerkleStep MerkleWitness.
+Import ListNotations.
+Local Open Scope nat_scope.
+
+(* The invariant (I1 a cached hash is fresh and all children of a cached node
+   are cached; I2 every child edge has its back-link, with multiplicity; I3 the
+   two derived caches of a Directory hold fresh entries; I4 collected => cached;
+   handles valid; acyclic) holds of the empty heap. *)
+Theorem C10_inv_init : forall NH : bytes -> list entry -> bytes, InvA NH [].
+Proof. exact InvA_init. Qed.
+Print Assumptions C10_inv_init.
+
+(* Every operation, guarded, preserves the invariant - including forced
+   updates at inner nodes of DAGs and operations that raise. *)
+Theorem C10_inv_step : forall NH : bytes -> list entry -> bytes,
+  (forall d es, NH d es <> []) ->
+  forall (s : heap) (o : op), InvA NH s -> guard NH true s o -> InvA NH (fst (step NH true s o)).
+Proof. exact step_inv. Qed.
+Print Assumptions C10_inv_step.
+
+(* Hence every state reached by a guarded history satisfies it. *)
+Theorem C10_reachable : forall NH : bytes -> list entry -> bytes,
+  (forall d es, NH d es <> []) ->
+  forall (h : list op) (s : heap), InvA NH s -> guarded NH true s h -> InvA NH (final NH true s h).
+Proof. exact reachable_inv. Qed.
+Print Assumptions C10_reachable.
+
+(* No stale value: after ANY guarded history from the empty heap, reading the
+   hash of any node (lazily or with force=True) succeeds - the fuel of the
+   recursive procedures is never exhausted - and returns the hash computed from
+   scratch from the current structure; Directory.entries / to_model return
+   entries built from the fresh hashes of the current children. *)
+Theorem C10_no_stale : forall NH : bytes -> list entry -> bytes,
+  (forall d es, NH d es <> []) ->
+  forall (h : list op) (o : op),
+  guarded NH true [] h -> guard NH true (final NH true [] h) o ->
+  let s := final NH true [] h in
+  let s' := fst (step NH true s o) in
+  (forall n, n < length s -> o = OHash n \/ o = OForce n ->
+     exists hv, snd (step NH true s o) = OutHash hv /\ Fresh NH s' n hv /\ Fresh NH s n hv) /\
+  (forall n es, o = OEntries n \/ o = OToModel n -> snd (step NH true s o) = OutEntries es ->
+     exists x, nth_error s n = Some x /\ FreshKids NH s' (kids x) es).
+Proof. exact no_stale. Qed.
+Print Assumptions C10_no_stale.
+
+(* "The" value computed from scratch: Fresh is functional. *)
+Theorem C10_fresh_unique : forall (NH : bytes -> list entry -> bytes) (s : heap),
+  (forall n h, Fresh NH s n h -> forall h', Fresh NH s n h' -> h = h') /\
+  (forall ks es, FreshKids NH s ks es -> forall es', FreshKids NH s ks es' -> es = es').
+Proof. exact Fresh_det. Qed.
+Print Assumptions C10_fresh_unique.
+
+(* Removing a node from one parent never disturbs its link to another parent:
+   after a delete (plain or nested key, successful or raising), every parent q
+   that still holds a child c is still recorded in c.parents. *)
+Theorem C10_delete_keeps_other_parent : forall NH : bytes -> list entry -> bytes,
+  (forall d es, NH d es <> []) ->
+  forall (h : list op) (p : nat) (key : bytes),
+  guarded NH true [] h -> guard NH true (final NH true [] h) (ODel p key) ->
+  let s' := fst (step NH true (final NH true [] h) (ODel p key)) in
+  forall q x name c y, nth_error s' q = Some x -> In (name, c) (kids x) -> nth_error s' c = Some y ->
+    In q (parents y).
+Proof. exact delete_keeps_other_parent. Qed.
+Print Assumptions C10_delete_keeps_other_parent.
+
+(* The previous code (parents.remove(self), which compares with ==) does NOT
+   satisfy the property: a guarded 13-step history (child attached under two
+   structurally equal parents, deleted from one, then mutated) after which the
+   root reports a hash that is not the from-scratch hash. *)
+Theorem C10_no_stale_refuted_old_remove :
+  exists NH h n hv, (forall d es, NH d es <> []) /\ guarded NH false [] h /\
+    snd (step NH false (final NH false [] h) (OHash n)) = OutHash hv /\
+    ~ Fresh NH (final NH false [] h) n hv.
+Proof. exact old_remove_refuted. Qed.
+Print Assumptions C10_no_stale_refuted_old_remove.
+
+(* The hypothesis "node hashes are truthy" is needed: with a compute_hash that
+   returns b"" for some node, invalidate_hash stops at that node and its parents
+   stay stale (the current code, removal by identity). *)
+Theorem C10_falsy_hash_refuted :
+  exists NH h n hv, guarded NH true [] h /\
+    snd (step NH true (final NH true [] h) (OHash n)) = OutHash hv /\
+    ~ Fresh NH (final NH true [] h) n hv.
+Proof. exact falsy_hash_refuted. Qed.
+Print Assumptions C10_falsy_hash_refuted.
+
+(* Non-vacuity: a 23-step history building a diamond whose two middle nodes are
+   structurally equal and share a child (parents recorded [p2; p1]), with bulk
+   update, delete, forced update, collects and a reset, satisfies every guard. *)
+Theorem C10_guards_satisfiable :
+  (forall d es, NH0 d es <> []) /\
+  guarded NH0 true [] h_diamond /\
+  length (final NH0 true [] h_diamond) = 5 /\
+  (let s := final NH0 true [] (firstn 10 h_diamond) in
+   (exists y, nth_error s 0 = Some y /\ parents y = [2; 1]) /\ node_eqb (S (length s)) s 1 2 = true).
+Proof. exact guards_satisfiable. Qed.
+Print Assumptions C10_guards_satisfiable.
